@@ -5,33 +5,33 @@
    of the grid bookkeeping of data/image.py, data/flow.py, data/tensor.py, data/collate.py),
    Model/BatchSpec.v (the property: out_sound / res_sound / no_raise / ginv).
 
-   FULL STATEMENT (false of the faithful model -- genuine defects of deepali, see the _refuted theorems):
+   FULL STATEMENT (false of the faithful model -- see C19_batch_reorder_refuted, C19_batch_mix_refuted; kept by the
+   maintainers as a design decision of the shape-based dispatcher):
      dispatch_sound : forall gshape gaxes o args, Forall (wf_val gshape) args ->
        res_sound gshape args (run_op gshape gaxes o args) /\ no_raise o args (run_op gshape gaxes o args).
-   What is proved instead (_partial): the operation family minus the refuted forms, for EVERY batch size,
-   grid assignment, shape and argument value:
-     - every single-operand operation that reaches the generic branch of ImageBatch.__torch_function__
-       (elementwise / casts / clone, reductions, narrow, select, index_select, flip, roll, permute, expand, repeat,
-       reshape, interpolation / pooling / padding / conv, grid_sample, chunk, unbind, cumsum), provided it does not
-       reorder or mix the batch dimension (batch_aligned);
-     - torch.cat along the batch dimension of any number of image batches;
-     - __getitem__ for every int / slice / index-list form (also inside tuples with channel and spatial indices
-       and ellipses), for ImageBatch and FlowFields; __iter__; deepcopy / pickle (all classes), copy (image classes);
+   What is proved (for EVERY batch size, grid assignment, shape and argument value):
+     - every single-operand operation that reaches the generic branch of ImageBatch.__torch_function__ (elementwise / casts /
+       clone, reductions, narrow, select, index_select, flip, roll, permute, expand, repeat, reshape, interpolation / pooling /
+       padding / conv, grid_sample, chunk, unbind, cumsum), provided it does not reorder or mix the batch dimension
+       (batch_aligned) -- this proviso is exactly what the two _refuted theorems show to be necessary;
+     - torch.cat of any number of image batches along the batch dimension and along any other dimension;
+     - torch.split (int and list), split_with_sizes, tensor_split (sections) along the batch dimension;
+     - __getitem__ for EVERY form (int, slice, index list / tensor / array, boolean mask, Ellipsis, tuples), ImageBatch and
+       FlowFields; the narrow method along the batch dimension (also negative dim); __iter__; copy / deepcopy / pickle;
      - programs of such steps of any length (induction over the operation list).
-   Missing from the _partial theorems (covered by the correspondence and the implementation-side evaluation only):
-   binary operations with a second tensor operand, cat along other dimensions, stack, split(int) and
-   tensor_split(indices) along the batch dimension, from_images / append / collate, the FlowFields and single
-   Image / FlowField dispatchers, ImageBatch.sample. *)
+   Covered by the correspondence and the implementation-side evaluation only (no theorem): binary operations with a second
+   tensor operand, stack, tensor_split(indices), splits along other dimensions, from_images / append / collate, the FlowFields
+   and single Image / FlowField dispatchers, ImageBatch.sample. *)
 From Coq Require Import String List ZArith Bool Arith Lia.
 From DV Require Import Model.Enums Model.Batch Model.BatchSpec Model.BatchPins Gen.BatchTables
-  Proofs.C19Base Proofs.C19Generic Proofs.C19Aligned Proofs.C19Cat Proofs.C19GetItem Proofs.C19Prog Proofs.C19Refuted.
+  Proofs.C19Base Proofs.C19Generic Proofs.C19Aligned Proofs.C19Cat Proofs.C19GetItem Proofs.C19Split Proofs.C19Prog Proofs.C19Refuted.
 Import ListNotations.
 
 (* 0. the tables / conditions / method bodies the model transcribes are the ones in the source now *)
 Theorem C19_model_pinned_to_source :
-  gen_dispatch_tests = pin_dispatch_tests /\ gen_grid_tests = pin_grid_tests /\ gen_grid_guard = pin_grid_guard
+  gen_dispatch_tests = pin_dispatch_tests /\ gen_grid_tests = pin_grid_tests /\ gen_grid_guard = pin_grid_guard /\ gen_grid_dim = pin_grid_dim
   /\ gen_result_conditions = pin_result_conditions /\ gen_fingerprints = pin_fingerprints.
-Proof. exact (conj eq_refl (conj eq_refl (conj eq_refl (conj eq_refl eq_refl)))). Qed.
+Proof. exact (conj eq_refl (conj eq_refl (conj eq_refl (conj eq_refl (conj eq_refl eq_refl))))). Qed.
 Print Assumptions C19_model_pinned_to_source.
 
 (* 1. generic branch of the dispatcher, one image-batch operand, any batch size / grids / shape *)
@@ -71,28 +71,43 @@ Theorem C19_cat_sound :
 Proof. exact cat_dim0_sound. Qed.
 Print Assumptions C19_cat_sound.
 
-(* 4. indexing: every int / slice / list form; tuples whose resolved first index is not a mask *)
-Theorem C19_getitem_sound_partial :
-  forall (gshape : gid -> shape) (gaxes : gid -> axes) (fl : option axes) (sh : shape) (gs : list gid),
-  wf_val gshape (mkT sh (TBatch fl gs)) ->
-  (forall i, match i with IEll | IBools _ => False | _ => True end ->
-     res_sound gshape [mkT sh (TBatch fl gs)] (run_op gshape gaxes (OGetItem (GOne i)) [mkT sh (TBatch fl gs)]))
-  /\ (forall l, (forall ix, resolve_ell (ndim sh) l = Some ix -> first_ok ix) ->
-     res_sound gshape [mkT sh (TBatch fl gs)] (run_op gshape gaxes (OGetItem (GTup l)) [mkT sh (TBatch fl gs)])).
-Proof.
-  exact (fun gshape gaxes fl sh gs Hwf =>
-           conj (fun i Hi => getitem_one_sound gshape gaxes fl sh gs i Hwf Hi)
-                (fun l Hl => getitem_tuple_sound gshape gaxes fl sh gs l Hwf Hl)).
-Qed.
-Print Assumptions C19_getitem_sound_partial.
+(* ... and along any other (non-negative) dimension: grids of the first batch, entry i = entry i of every operand *)
+Theorem C19_cat_other_dim_sound :
+  forall (gshape : gid -> shape) (gaxes : gid -> axes) (d : dimarg) (a : tval) (args : list tval),
+  (0 < dim_value d)%Z -> all_image_batches gshape (a :: args) ->
+  res_sound gshape (a :: args) (run_op gshape gaxes (OCat d) (a :: args)).
+Proof. exact cat_other_dim_sound. Qed.
+Print Assumptions C19_cat_other_dim_sound.
 
-(* batch.narrow(0, start, length) (the method deepali defines on its batch classes): grids narrowed like the data *)
-Theorem C19_narrow_method_sound_partial :
-  forall (gshape : gid -> shape) (gaxes : gid -> axes) (fl : option axes) (sh : shape) (gs : list gid) (st len : nat),
+(* 3b. split (int / list of sizes), split_with_sizes, tensor_split (sections) along the batch dimension *)
+Theorem C19_split_sound :
+  forall (gshape : gid -> shape) (gaxes : gid -> axes) (o : op) (s : shape) (gs : list gid),
+  split_dim0 o -> wf_val gshape (mkT s (TBatch None gs)) ->
+  res_sound gshape [mkT s (TBatch None gs)] (run_op gshape gaxes o [mkT s (TBatch None gs)]).
+Proof. exact split_batch_dim_sound. Qed.
+Print Assumptions C19_split_sound.
+
+(* 4. indexing: every form *)
+Theorem C19_getitem_sound :
+  forall (gshape : gid -> shape) (gaxes : gid -> axes) (fl : option axes) (sh : shape) (gs : list gid) (f : gform),
   wf_val gshape (mkT sh (TBatch fl gs)) ->
-  res_sound gshape [mkT sh (TBatch fl gs)] (run_op gshape gaxes (ONarrowM 0%Z st len) [mkT sh (TBatch fl gs)]).
+  res_sound gshape [mkT sh (TBatch fl gs)] (run_op gshape gaxes (OGetItem f) [mkT sh (TBatch fl gs)]).
+Proof.
+  exact (fun gshape gaxes fl sh gs f Hwf =>
+           match f with
+           | GOne i => getitem_one_sound gshape gaxes fl sh gs i Hwf
+           | GTup l => getitem_tuple_sound gshape gaxes fl sh gs l Hwf
+           end).
+Qed.
+Print Assumptions C19_getitem_sound.
+
+(* batch.narrow(dim, start, length) along the batch dimension, dim = 0 or dim = -ndim *)
+Theorem C19_narrow_method_sound :
+  forall (gshape : gid -> shape) (gaxes : gid -> axes) (fl : option axes) (sh : shape) (gs : list gid) (z : Z) (st len : nat),
+  wf_val gshape (mkT sh (TBatch fl gs)) -> (z = 0 \/ z = - Z.of_nat (ndim sh))%Z ->
+  res_sound gshape [mkT sh (TBatch fl gs)] (run_op gshape gaxes (ONarrowM z st len) [mkT sh (TBatch fl gs)]).
 Proof. exact narrow_method_batch_sound. Qed.
-Print Assumptions C19_narrow_method_sound_partial.
+Print Assumptions C19_narrow_method_sound.
 
 Theorem C19_iter_sound :
   forall (gshape : gid -> shape) (gaxes : gid -> axes) (fl : option axes) (sh : shape) (gs : list gid) (k : nat),
@@ -101,13 +116,12 @@ Theorem C19_iter_sound :
 Proof. exact iter_pick_sound. Qed.
 Print Assumptions C19_iter_sound.
 
-(* 5. copies: deepcopy and pickle preserve type, grids and axes for all classes; copy.copy for image classes *)
-Theorem C19_copy_preserves_partial :
+(* 5. copies: copy.copy, deepcopy and pickle preserve type, grids and axes for all four classes *)
+Theorem C19_copy_preserves :
   forall (gshape : gid -> shape) (gaxes : gid -> axes) (c : copykind) (v : tval),
-  (c = CCopy -> kind_axes (t_kind v) = None) ->
   run_op gshape gaxes (OCopy c) [v] = OOne (mkO (t_shape v) (t_kind v) (ident_src 0 (nent (t_shape v)))).
 Proof. exact copy_preserves. Qed.
-Print Assumptions C19_copy_preserves_partial.
+Print Assumptions C19_copy_preserves.
 
 (* 6. programs: any number of steps; every typed value carries per entry the grid of an input item it holds *)
 Theorem C19_programs_sound_partial :
@@ -133,28 +147,27 @@ Theorem C19_batch_mix_refuted :
 Proof. exact (conj transpose01_refuted cumsum0_refuted). Qed.
 Print Assumptions C19_batch_mix_refuted.
 
-Theorem C19_split_refuted :
-  (res_ok [0; 1; 2] (run1 (OSplitL [1; 2] DNone) b3) = false /\ res_ok [0; 1; 2] (run1 (OSplitSizes [1; 2] DNone) b3) = false)
-  /\ (raises (run1 (OTSplitN 3 DNone) b6) EAssert = true
-      /\ match data_sem (OTSplitN 3 DNone) [t_shape b6] with DTuple l => length l | _ => 0 end = 3)
-  /\ (raises (run1 (OSplit 1 (DKw 1%Z)) b3) EAssert = true /\ raises (run1 (OTSplitI [1] (DPos 1%Z)) b3) EAssert = true).
-Proof. exact (conj split_sizes_refuted (conj tensor_split_int_refuted split_other_dim_refuted)). Qed.
-Print Assumptions C19_split_refuted.
+(* 8. the former counterexamples (split sizes, tensor_split sections, splits along other dims, batch[...], masks, narrow with
+      a negative dim, FlowFields batch size / split / copy / from_images) behave correctly on the repaired tree *)
+Theorem C19_former_counterexamples_fixed :
+  (res_ok [0; 1; 2] (run1 (OSplitL [1; 2] DNone) b3) = true /\ typed_pieces (run1 (OSplitSizes [1; 2] DNone) b3) = [[0]; [1; 2]])
+  /\ typed_pieces (run1 (OTSplitN 3 DNone) b6) = [[0; 1]; [2; 3]; [4; 5]]
+  /\ (typed_pieces (run1 (OSplit 1 (DKw 1%Z)) b3) = [[0; 1; 2]; [0; 1; 2]]
+      /\ typed_pieces (run1 (OTSplitI [1] (DPos 1%Z)) b3) = [[0; 1; 2]; [0; 1; 2]]
+      /\ typed_pieces (run1 (OSplitSizes [1; 2] (DPos (-4)%Z)) b3) = [[0]; [1; 2]])
+  /\ (res_ok [0; 1; 2] (run1 (OGetItem (GOne IEll)) b3) = true
+      /\ res_ok [0; 1; 2] (run1 (OGetItem (GOne (IBools [true; false; true]))) b3) = true
+      /\ res_ok [0; 1; 2] (run1 (ONarrowM (-4)%Z 1 2) b3) = true).
+Proof. exact (conj split_sizes_fixed (conj tensor_split_int_fixed (conj split_other_dim_fixed getitem_narrow_fixed))). Qed.
+Print Assumptions C19_former_counterexamples_fixed.
 
-Theorem C19_getitem_narrow_refuted :
-  res_ok [0; 1; 2] (run1 (OGetItem (GOne IEll)) b3) = false
-  /\ res_ok [0; 1; 2] (run1 (OGetItem (GOne (IBools [true; false; true]))) b3) = false
-  /\ res_ok [0; 1; 2] (run1 (ONarrowM (-4)%Z 1 2) b3) = false.
-Proof. exact (conj getitem_ellipsis_refuted (conj getitem_mask_refuted narrow_method_negative_dim_refuted)). Qed.
-Print Assumptions C19_getitem_narrow_refuted.
-
-Theorem C19_flowfields_refuted :
-  (res_ok [0; 1; 2] (run1 (ONarrow 0%Z 1 2) f3) = false /\ res_ok [0; 1; 2] (run1 (ORepeat [2; 1; 1; 1]) f3) = false)
-  /\ raises (run1 (OSplit 1 DNone) f3) EAttr = true
-  /\ raises (run1 (OCopy CCopy) f3) EType = true
-  /\ match run1 (OIterBuild BFromImages [0; 1; 2]) f3 with OOne o => kind_axes (v_kind o) | _ => None end = Some CUBE_CORNERS.
-Proof. exact (conj flow_batch_size_refuted (conj flow_split_refuted (conj flow_copy_refuted flow_from_images_axes_refuted))). Qed.
-Print Assumptions C19_flowfields_refuted.
+Theorem C19_flowfields_fixed :
+  (res_ok [0; 1; 2] (run1 (ONarrow 0%Z 1 2) f3) = true /\ res_ok [0; 1; 2] (run1 (ORepeat [2; 1; 1; 1]) f3) = true)
+  /\ typed_pieces (run1 (OSplit 1 DNone) f3) = [[0]; [1]; [2]]
+  /\ run1 (OCopy CCopy) f3 = OOne (mkO [3; 2; 3; 4] (TBatch (Some WORLD) [0; 1; 2]) [[(0, 0)]; [(0, 1)]; [(0, 2)]])
+  /\ match run1 (OIterBuild BFromImages [0; 1; 2]) f3 with OOne o => kind_axes (v_kind o) | _ => None end = Some WORLD.
+Proof. exact flowfields_fixed. Qed.
+Print Assumptions C19_flowfields_fixed.
 
 (* the executable check used by the refutations rejects nothing the specification accepts *)
 Theorem C19_refutation_check_complete :
